@@ -660,5 +660,15 @@ def r01e(R):
                 if isinstance(a, ast.ListComp) and len(a.generators) == 1 \
                         and not a.generators[0].ifs:
                     ok = True
+                elif isinstance(a, ast.Call):
+                    # helper(light_set, names) returning an unfiltered
+                    # comprehension over its parameter
+                    for h in A.callees(f, a):
+                        for rn in walk_own(h.node):
+                            if isinstance(rn, ast.Return) and isinstance(rn.value, ast.ListComp) \
+                                    and len(rn.value.generators) == 1 \
+                                    and not rn.value.generators[0].ifs \
+                                    and norm(rn.value.generators[0].iter) in h.params:
+                                ok = True
         R.check(f, construct, ok, 'the members handed to the fan-out helper '
                 'are not the complete member list (filter or no list)')
